@@ -32,14 +32,14 @@ Stay == UNCHANGED <<now, pc>>
 MPublish(id) == APutBegin(T, id, Info(id)) /\ Stay
 MAck(id)     == Has(minfo, <<T, id>>) /\ ~minfo[<<T, id>>].acked /\ APutAck(T, {id}) /\ Stay
 MTake(id)    == ATake(T, id, {c \in Chans : chan[c].st = "live"}) /\ Stay
-MCopy(c, id) == Cu(c, id).loc = "none" /\ ACPutBegin(c, id, 0) /\ Stay
+MCopy(c, id) == Cu(c, id).loc = "none" /\ ACPutBegin(c, id, 0, now) /\ Stay
 MCopied      == Has(copying, T) /\ ACopied(T, copying[T].id) /\ Stay
 
 \* delivery pump of k: evaluate, receive, register, send
 MEval(k) == /\ pc[k] = "idle"
             /\ LET c == ChanOfK(k)
                    r == ~chan[c].paused /\ cl[k].rdy > 0 /\ Cardinality(HeldBy(k)) < cl[k].rdy IN
-               AKEval(k, r, cl[k].rdy, Cardinality(HeldBy(k)), chan[c].paused)
+               AKEval(k, r, cl[k].rdy, Cardinality(HeldBy(k)), chan[c].paused, 0)
             /\ pc' = [pc EXCEPT ![k] = IF cl'[k].ready THEN "recv" ELSE "idle"]
             /\ now' = now
 MBlocked(k) == pc[k] = "recv" /\ pc' = [pc EXCEPT ![k] = "idle"] /\ cl' = [cl EXCEPT ![k].ready = FALSE]
@@ -60,7 +60,7 @@ MFin(k, id)  == LET c == ChanOfK(k) IN Cu(c, id).loc = "L" /\ Cu(c, id).via = "p
                 /\ AFinDone(c, id, k) /\ Stay
 MReq(k, id, d) == LET c == ChanOfK(k) IN Cu(c, id).loc = "L" /\ Cu(c, id).via = "popped" /\ Cu(c, id).k = k
                 /\ AReqStart(c, id, k, d, now) /\ Stay
-MReqPut(c, id) == Cu(c, id).loc = "L" /\ Cu(c, id).via = "req" /\ Cu(c, id).d0 = 0 /\ ACPutBegin(c, id, Cu(c, id).att) /\ Stay
+MReqPut(c, id) == Cu(c, id).loc = "L" /\ Cu(c, id).via = "req" /\ Cu(c, id).d0 = 0 /\ ACPutBegin(c, id, Cu(c, id).att, now) /\ Stay
 MReqDefer(c, id) == Cu(c, id).loc = "L" /\ Cu(c, id).via = "req" /\ Cu(c, id).d0 > 0
                 /\ ADefPush(c, id, now + Cu(c, id).d0) /\ Stay
 MTouch(k, id) == LET c == ChanOfK(k) cu == Cu(c, id) IN
@@ -73,14 +73,14 @@ MTouchPush(c, id) == LET cu == Cu(c, id) IN cu.loc = "L" /\ cu.via = "touch"
 MScanPop(c, id)  == LET cu == Cu(c, id) IN cu.loc = "F" /\ cu.pri <= now
                     /\ AIFPop(c, id, cu.k, cu.k, "ok", now) /\ Stay
 MScanMark(c, id) == LET cu == Cu(c, id) IN cu.loc = "L" /\ cu.via = "popped" /\ AScanTimedOut(c, id, cu.k) /\ Stay
-MScanPut(c, id)  == Cu(c, id).loc = "L" /\ Cu(c, id).via = "timeout" /\ ACPutBegin(c, id, Cu(c, id).att) /\ Stay
+MScanPut(c, id)  == Cu(c, id).loc = "L" /\ Cu(c, id).via = "timeout" /\ ACPutBegin(c, id, Cu(c, id).att, now) /\ Stay
 MDefDue(c, id)   == Cu(c, id).loc = "D" /\ Cu(c, id).pri <= now /\ ADefPop(c, id, TRUE) /\ Stay
-MDefPut(c, id)   == Cu(c, id).loc = "DL" /\ ACPutBegin(c, id, Cu(c, id).att) /\ Stay
+MDefPut(c, id)   == Cu(c, id).loc = "DL" /\ ACPutBegin(c, id, Cu(c, id).att, now) /\ Stay
 
 MRdy(k, n)  == cl[k].rdy # n /\ AKRdyBegin(k, n) /\ Stay
 MRdyEnd(k)  == \E n \in cl[k].pend : AKRdyEnd(k, n) /\ Stay
 MPause(c)   == chan[c].ppend = {} /\ ACPauseBegin(c, ~chan[c].paused) /\ Stay
-MPauseEnd(c) == \E p \in chan[c].ppend : ACPauseEnd(c, p) /\ Stay
+MPauseEnd(c) == \E p \in chan[c].ppend : ACPauseEnd(c, p, 0, now) /\ Stay
 MEmpty1(c)  == ~chan[c].emptying /\ AEmptyBegin(c) /\ Stay
 MEmpty2(c)  == chan[c].emptying /\ (\E x \in DOMAIN cust : x[1] = c /\ cust[x].loc \in {"F", "D"})
                /\ (AReset(c, "F") \/ AReset(c, "D")) /\ Stay
@@ -107,7 +107,7 @@ Bound == \A x \in DOMAIN cust : cust[x].att <= MaxAtt
 \* without adding behaviour
 MView == <<tq, copying, now, pc,
            [x \in DOMAIN minfo |-> minfo[x].acked],
-           [x \in DOMAIN cust |-> [cust[x] EXCEPT !.t0 = 0]],
+           [x \in DOMAIN cust |-> [cust[x] EXCEPT !.t0 = 0, !.qnow = 0]],
            [k \in DOMAIN cl |-> <<cl[k].c, cl[k].rdy, cl[k].pend, cl[k].ready>>],
            [c \in DOMAIN chan |-> <<chan[c].st, chan[c].paused, chan[c].ppend, chan[c].emptying>>]>>
 
